@@ -28,6 +28,10 @@ Input classes that carry a defect of the unchanged tree get the same strict chec
 monitor name, so that a pinned known finding cannot hide anything else:
   reroot_at_midpoint@on_node.*   the midpoint of the longest path coincides with an existing node
                                  (DESIGN.md section 8: break_on_node branch re-seeds one node too low)
+  to_outgroup_position@not_rooted.raises   (DESIGN.md section 8: the re-seed collapses the basal bifurcation and with
+                                 it the outgroup -> ValueError), rooted trees keep the plain name
+  randomly_reorient@single_node.*   one-node tree: AssertionError in to_outgroup_position
+  *.rooting_flag@undefined_rooting  is_rooted None before a soft operation (the basal collapse sets it to False)
   *@mixed_missing_lengths        tree not rooted, collapse of the basal bifurcation possible, some but not
                                  all edge lengths missing (collapse_basal_bifurcation drops the removed edge's
                                  length when the kept edge has none)
@@ -37,6 +41,10 @@ Left out on purpose:
     node and stops being a leaf).  Leaves are reached through to_outgroup_position / randomly_reorient.
   * reroot_at_midpoint on trees with a missing (None) edge length (TypeError in the comparison; a midpoint is
     not defined there) and on a single-leaf tree.
+  * sources whose SEED node has one child (the seed is then a degree-1 vertex, i.e. an unlabelled leaf of the
+    unrooted tree, and re-rooting elsewhere turns it into a taxon-less leaf): C03 drives those for well-formedness.
+    Unifurcations elsewhere are driven.  to_outgroup_position(suppress_unifurcations=True) with an outgroup node
+    that itself has exactly one child is skipped (the request asks to delete the outgroup).
   * reroot_at_edge on the seed edge (docstring: an internal edge).
   * the rooted clades / child order after ladderize, reorder, rotate (statement only speaks of the unrooted tree).
 """
@@ -126,6 +134,8 @@ def enumerate_ops(tree, quick_targets=None, seeds=(1, 2, 3)):
                     ops.append(dict(op="reroot_at_edge", t=i, l=lc, upd=upd, sup=sup))
         for upd in B2:
             for sup in B2:
+                if sup and len(order[i]._child_nodes) == 1:
+                    continue  # the outgroup itself is a unifurcation the caller asks to suppress: contradictory request
                 ops.append(dict(op="to_outgroup_position", t=i, upd=upd, sup=sup))
     leaves_n = sum(1 for n in order if not n._child_nodes)
     all_len = all(n._edge.length is not None for n in order if n._parent_node is not None)
@@ -178,6 +188,12 @@ def eval_op(spec, o, before=None):
     prefix = op
     if op == "reroot_at_midpoint" and before["on_node"]:
         prefix = "reroot_at_midpoint@on_node"
+    if op == "randomly_reorient" and len(order) == 1:
+        prefix = "randomly_reorient@single_node"
+    if op == "to_outgroup_position" and not spec.get("rooted"):
+        raises_prefix = "to_outgroup_position@not_rooted"
+    else:
+        raises_prefix = prefix
     suffix = ""
     if before["mixed"] and not spec.get("rooted") and (o.get("col", True) or o.get("upd")):
         suffix = "@mixed_missing_lengths"
@@ -224,9 +240,7 @@ def eval_op(spec, o, before=None):
     except Timeout:
         return [(prefix + ".terminates", "no result after 20 s")]
     except Exception as ex:
-        if isinstance(ex, ValueError) and op == "reroot_at_edge" and False:
-            pass
-        return [(prefix + ".raises", "%s: %s" % (type(ex).__name__, ex))]
+        return [(raises_prefix + ".raises", "%s: %s" % (type(ex).__name__, ex))]
 
     errs = S.arborescence_errors(t)
     if errs:
@@ -248,7 +262,7 @@ def eval_op(spec, o, before=None):
     # rooting flag
     if op in SOFT:
         if t._is_rooted is not before["flag"]:
-            fails.append((name("rooting_flag"), "soft operation changed is_rooted from %r to %r" % (before["flag"], t._is_rooted)))
+            fails.append((name("rooting_flag") + ("@undefined_rooting" if before["flag"] is None else ""), "soft operation changed is_rooted from %r to %r" % (before["flag"], t._is_rooted)))
     else:
         if t._is_rooted is not True:
             fails.append((name("rooting_flag"), "hard operation left is_rooted = %r" % (t._is_rooted,)))
@@ -365,9 +379,9 @@ def t2(ctx):
     # unifurcations in the source
     shp = []
     for s in shapes_upto(5 if thorough else 4, 2):
-        shp.extend(with_unifurcations(s))
+        shp.extend(u for u in with_unifurcations(s) if len(u) != 1)
     items = [(s, None) for s in _specs(shp, ["ones", "dyadic", "onemissing", "none"], R3)]
-    _run_scope(ctx, "reroot@unifurcated-sources", "shapes with 2..%d leaves with a unifurcation inserted above one node (root included) x "
+    _run_scope(ctx, "reroot@unifurcated-sources", "shapes with 2..%d leaves with a unifurcation inserted above one non-seed node x "
                "{ones, dyadic, onemissing, none} x 3 rooting states x every operation/target/option" % (5 if thorough else 4), True, items, reported)
     # namespaces (bit positions differ from list positions) and a length on the seed edge
     sp = _specs(list(shapes_upto(5 if thorough else 4, 2)), ["dyadic", "ones"], R3, nss=("extra", "removed", "reversed"))
